@@ -27,6 +27,8 @@ BLOCKS = [
     "| a | b |\n|---|:-:|\n| 1 | 2 |", "| a |\n|---|\n| 1 | 2 | 3 |", "$a=1$ $$b$$", "\\begin{equation}\na\n\\end{equation}", "Term\n: Def", ":field: value", "{{ key }}", "{{ nokey }}", "{{ a.b() }}", "{{ key2 }}",
     ":::{tip}\nx\n:::", "::::{note}\n:::{tip}\n:::\n::::", "- [ ] task\n- [x] done", "~~s~~", "a\\\nb", "(target)=\n# T2", "% comment", "+++ {\"a\": 1}", "+++ bad json", "\x00\ud800".encode("utf8", "surrogatepass").decode("utf8", "replace"),
     "﻿bom", "\t\ttabs", "a" * 300, "[x]: <y z>\n\n[x]", "```{note}\n---\nclass: a\n--- y\nbody\n```", "```{admonition}\n```", "```{admonition} T\n:name: [1,\n```",
+    # one id used twice: attribute block on two headings, on a heading and a (x)= target, equal to the heading's own name
+    "{#x}\n# A\n\n{#x}\n# B", "{#x}\n# A\n\n(x)=\npara", "(x)=\n# A\n\n{#x}\n# B", "{#a}\n# A\n\n# a", "{#x .c}\npara\n\n{#x}\npara", "{#x}\n- l\n\n{#x}\n> q",
 ]
 FRONT = [
     "", "---\ntitle: T\n---\n", "---\na: [\n---\n", "---\na: *x\n---\n", "---\na: 2001-13-45\n---\n", "---\n- list\n---\n", "---\nmyst:\n  enable_extensions: [dollarmath, nope]\n---\n",
